@@ -96,11 +96,67 @@ const RANGE_COUNTS: &[&str] = &[
 ];
 const KEY_NAMES: &[&str] = &["1x", "a b", "", "fn", "é", "self", "k-1", "k_1", "k 1", "_", "__", "r#fn", "a.b", "a:b", "count", "var_count", "k_other", "k_one", "k_ordinal_other", "k_ordinal_one", "k_zero", "k_ordinal_few"];
 
+/// ASCII letters become multibyte look-alikes (2, 3 and 4 byte encodings): byte offsets no longer equal char offsets
+fn widen(s: &str, t: &mut Tape) -> String {
+    const WIDE: &[char] = &['é', 'ß', 'я', '円', '漢', 'ｗ', '😀', '𝒶', 'İ'];
+    s.chars().map(|c| if c.is_ascii_alphanumeric() && t.coin() { WIDE[t.pick(WIDE.len())] } else { c }).collect()
+}
+
+/// 1-3 whitespace characters after every opener / before every closer
+fn pad_delimiters(s: &str, t: &mut Tape) -> String {
+    const WS: &[&str] = &[" ", "  ", "   ", "\t", " \t", "\u{3000}", " \u{a0}"];
+    let mut out = String::new();
+    let mut rest = s;
+    'outer: while !rest.is_empty() {
+        for (tok, before) in [("{{", false), ("}}", true), ("</", false), ("<", false), (">", true), ("$t(", false), (")", true)] {
+            if rest.starts_with(tok) {
+                let w = if t.chance(2, 3) { WS[t.pick(WS.len())] } else { "" };
+                if before {
+                    out.push_str(w);
+                    out.push_str(tok);
+                } else {
+                    out.push_str(tok);
+                    out.push_str(w);
+                }
+                rest = &rest[tok.len()..];
+                continue 'outer;
+            }
+        }
+        let c = rest.chars().next().unwrap();
+        out.push(c);
+        rest = &rest[c.len_utf8()..];
+    }
+    out
+}
+
+/// 1-2 mutation steps (offset bugs usually need a conjunction: padding + multibyte + imbalance)
 fn mutate_string(s: &str, t: &mut Tape) -> String {
+    let steps = t.weighted(&[3, 1]) + 1;
+    let mut cur = s.to_string();
+    for _ in 0..steps {
+        cur = mutate_once(&cur, t);
+    }
+    cur
+}
+
+fn mutate_once(s: &str, t: &mut Tape) -> String {
     let chars: Vec<char> = s.chars().collect();
     let pos = |t: &mut Tape| t.pick(chars.len() + 1);
     let mut out: Vec<char>;
-    match t.pick(9) {
+    match t.pick(12) {
+        9 => return widen(s, t),
+        10 => return pad_delimiters(s, t),
+        11 => {
+            // composite: padded, widened, and one closing token removed
+            let w = pad_delimiters(&widen(s, t), t);
+            let tok = ["</", ">", "}}", ")", "<", "{{"][t.pick(6)];
+            let occ: Vec<usize> = w.match_indices(tok).map(|(i, _)| i).collect();
+            if occ.is_empty() {
+                return w;
+            }
+            let i = occ[t.pick(occ.len())];
+            return format!("{}{}", &w[..i], &w[i + tok.len()..]);
+        }
         0 => {
             // insert a delimiter token
             let p = pos(t);
